@@ -1,6 +1,6 @@
 """Single source of truth for MANIFEST.json (tools/mkmanifest.py)."""
 
-FIX_COMMITS = ['cca4fac (C19 bbox int coercion)']
+FIX_COMMITS = ['cca4fac (C19 bbox int coercion)', '1b3ab08 (C05 cutout fill dtype)', '81c7236 (C05 multiply Quantity fill)']
 HOOK_COMMITS = []
 
 CHECKS = [
@@ -14,6 +14,15 @@ CHECKS = [
              'and proved under the decidable non-degeneracy predicates. Model tied to the code by an exhaustive small-window + random differential run.',
      'note': 'Trusted: Lean kernel, Mathlib, propext/Classical.choice/Quot.sound; the hand model BBox.lean is tied to bounding_box.py by the '
              'correspondence run (and translator bridge when enabled); numpy floor/ceil exact on doubles.'},
+    {'property_id': 'C05',
+     'technique': 'Lean 4 theorems (placement algebra over Int indices, any element type); correspondence run',
+     'text': 'to_image / cutout / multiply / get_values of the Impl model of RegionMask are proved equal to placement of the mask array '
+             'with its lower-left pixel at (ixmin, iymin), for every box position, every mask/image shape and every element type; '
+             'None exactly when get_overlap_slices is None; view iff fully inside and copy=False; windows in range (no wrap-around, from C19). '
+             'numpy slicing/casting, and that the input image is not modified, are not theorems: they are parameters of the model, '
+             'exercised by the differential run (exact value comparison on dyadic data, input fingerprinted before/after).',
+     'note': 'Trusted: Lean kernel/Mathlib/3 std axioms; numpy basic slicing = sliceAssign/sliceRead primitives; numpy dtype casting; '
+             'hand model Mask.lean tied to mask.py by the correspondence run. Degenerate empty box / zero-sized image = known finding F16c.'},
 ]
 
 _PENDING = 'check not built yet in this session (see DESIGN.md build order); not a statement that the technique cannot apply'
